@@ -53,6 +53,10 @@ func (e *E2eProcessingLatencyAggregate) Less(i, j int) bool {
 
 // Add merges e2 into e by averaging the percentiles
 func (e *E2eProcessingLatencyAggregate) Add(e2 *E2eProcessingLatencyAggregate) {
+	if e2 == nil {
+		// a node that reports no e2e latency data contributes nothing
+		return
+	}
 	e.Addr = "*"
 	p := e.Percentiles
 	e.Count += e2.Count
